@@ -14,7 +14,7 @@ def sigmoidOfString : String → Except String SigmoidMode
 
 def formOfString : String → Except String Form
   | "literal" => pure .literal | "np_scalar" => pure .npScalar | "ndarray" => pure .ndarray
-  | "tensor" => pure .tensor | "variable" => pure .variable
+  | "tensor" => pure .tensor | "variable" => pure .variable | "array" => pure .array
   | s => throw s!"unknown form {s}"
 
 def stepOfJson (w : World) (j : Json) : Except String Step := do
@@ -42,7 +42,7 @@ def stepsOfJson (w : World) : List Json → Except String (List Step)
 
 def formToString : Form → String
   | .literal => "literal" | .npScalar => "np_scalar" | .ndarray => "ndarray"
-  | .tensor => "tensor" | .variable => "variable"
+  | .tensor => "tensor" | .variable => "variable" | .array => "array"
 
 def outcomeToJson : KerasOutcome → Json
   | .ok => Json.mkObj [("kind", Json.str "ok")]
@@ -138,8 +138,15 @@ def handle (j : Json) : Except String Json := do
       | _ => throw "bad form pair"
     -- the Keras-pair outcome plus the form of every emitted configuration value
     let cf := configForms c stored
-    pure ((outcomeToJson (kerasOutcome cf)).setObjVal! "config_forms"
-      (Json.arr (cf.map fun p => Json.arr #[Json.str p.1, Json.str (formToString p.2)]).toArray))
+    -- strengthening round 2: forms held by the quantizer rebuilt through a dictionary route
+    let nones ← match j.getObjVal? "nones" with
+      | .ok v => (← v.getArr?).toList.mapM fun x => x.getStr?
+      | .error _ => pure []
+    let rf := rebuiltForms c stored nones
+    let pairs := fun (l : List (String × Form)) =>
+      Json.arr (l.map fun p => Json.arr #[Json.str p.1, Json.str (formToString p.2)]).toArray
+    pure (((outcomeToJson (kerasOutcome cf)).setObjVal! "config_forms" (pairs cf)).setObjVal!
+      "rebuilt_forms" (pairs rf))
   | _ => throw s!"unknown op {op}"
 
 def main : IO Unit := lineLoop handle
